@@ -56,6 +56,9 @@ fn mk_err(a: &[u128]) -> EncodeError {
         2 => EncodeError::ParentWrite(tn(a[1] as u64)),
         3 => EncodeError::LeafWrite(ChunkNum(a[1] as u64)),
         4 => EncodeError::SizeMismatch,
+        // io errors without a boxed payload: a bare kind, a raw OS error
+        6 => EncodeError::Io(io::Error::from(kind_of(a[1]))),
+        7 => EncodeError::Io(io::Error::from_raw_os_error(a[1] as i32)),
         _ => {
             let n = a[2] as usize;
             let msg: Vec<u8> = a[3..3 + n].iter().map(|x| *x as u8).collect();
@@ -140,6 +143,14 @@ pub fn serde_case(a: &[u128]) -> Vec<u128> {
                 _ => false,
             }, false)
         }
-        _ => round(&mk_err(p), fmt, eq_err, false),
+        _ => {
+            let mut r = round(&mk_err(p), fmt, eq_err, false);
+            if p[0] >= 6 {
+                // the text of a payload-less error is the platform's; only the round trip is compared
+                r[1] = 0;
+                r[2] = 0;
+            }
+            r
+        }
     }
 }
